@@ -99,7 +99,7 @@ class Check(PropertyCheck):
                   "lawful/seg_independent (ALL byte strings, ALL segmentations, from every state), "
                   "schedule_independent (ALL placements of hook/connect completions), parse inversion "
                   "(connects_exactly_requested both directions), reply_wellformed, reject_codes, "
-                  "after_request_relayed_once_in_order; the model is tied to the real layer by differential runs "
+                  "after_request_relayed_once_in_order, constants_match_code (SOCKS5_* constants regenerated from modes.py); the model is tied to the real layer by differential runs "
                   "(state, buffer, every command in order, server address, bytes given to the child) under whole / "
                   "segmented / deferred-completion delivery.")
     level_note = ("trusted: Lean kernel; hand-written model tied differentially (not verified) to modes.Socks5Proxy, "
@@ -107,7 +107,10 @@ class Check(PropertyCheck):
                   "/ ('utf-8','backslashreplace') are applied by the harness to the model's raw (ATYP, address, port) / credentials "
                   "(not modelled); the position of the child's Start event is not compared (NextLayer replays it on first data); "
                   "domains with non-ASCII bytes are compared only through the replace-decoding (the oracle demands exact "
-                  "equality for ASCII domains); Log commands are not observed.")
+                  "equality for ASCII domains); Log commands are not observed. Observed, allowed by the statement and therefore not "
+                  "flagged: the no-acceptable-method answer is 05 FF followed by 8 more bytes (the 10-byte reply shape), the "
+                  "RFC 1929 sub-negotiation version byte is not checked, a wrong version is only rejected once 2 bytes arrived "
+                  "and a bad request header once 5 bytes arrived.")
     technique = "Lean 4 proof (Incremental/Lawful instance, parser inversion, simulation of the deferred machine) + differential correspondence through world.py"
     rule = ("streams = greeting [+ RFC1929 auth] + request + trailing data, built from a grammar (70%), with one-field "
             "mutations (wrong version at each stage, 0 methods, missing method, CMD/RSV/ATYP variants, domain length 0/255, "
@@ -115,7 +118,7 @@ class Check(PropertyCheck):
             "eager/lazy, connect ok/fail, EOF) x segmentation (every segmentation for streams <= 9 bytes, every single "
             "split point, 1-byte mode, random cuts) x completion schedule. distinct = distinct case dict; non-trivial = stream non-empty.")
     budget = {"quick": 6000, "thorough": 400000}
-    time_budget = {"quick": 18, "thorough": 540}
+    time_budget = {"quick": 12, "thorough": 540}
     fingerprints = ["mitmproxy.proxy.layers.modes:Socks5Proxy", "mitmproxy.proxy.layers.modes:DestinationKnown",
                     "mitmproxy.proxy.layer:Layer.handle_event", "mitmproxy.proxy.layer:NextLayer._handle_event"]
     trusted_base = ["harness/common/world.py as a stand-in for proxy/server.py's command interpreter",
@@ -599,25 +602,29 @@ class Check(PropertyCheck):
                 c["eof"] = 1; c["eof_before_c"] = rng.randint(0, 2)
             yield c
 
-    def generate(self, rng, tier):
-        # small scope first: every stream over a tiny alphabet up to length 4 (greeting-level decisions), all segmentations
+    def gen_small(self, rng, tier):
+        # small scope: every stream over a tiny alphabet up to length 3/4 (greeting-level decisions), all segmentations
         alpha = [5, 1, 0, 2, 4]
         for n in range(0, 5 if tier == "thorough" else 4):
             for t in itertools.product(alpha, repeat=n):
                 for auth in (0, 1):
                     base = {"auth": auth, "policy": "T", "eager": 1, "conn_ok": 1}
                     yield from self.variants(rng, base, bytes(t), "thorough", 0)
+
+    def gen_canon(self, rng, tier):
         # every truncation point of a few canonical handshakes
         canon = [(0, bytes.fromhex("050100") + bytes.fromhex("050100017f0000011f90") + b"hi"),
                  (0, bytes.fromhex("05020100") + bytes.fromhex("0501000307") + b"example" + bytes.fromhex("01bb") + b"\x16\x03"),
                  (1, bytes.fromhex("050102") + bytes.fromhex("0102") + b"ab" + b"\x01c" + bytes.fromhex("05010004") + bytes(15) + b"\x01" + bytes.fromhex("0050") + b"x"),
                  (1, bytes.fromhex("050102") + bytes.fromhex("0100") + b"\x00" + bytes.fromhex("0501000300") + bytes.fromhex("0050"))]
         for auth, s in canon:
-            for cut in range(1, len(s) + 1):
+            for cut in range(len(s), 0, -1):
                 for eager, ok in ((1, 1), (1, 0), (0, 1)):
                     for pol in (("T", "F") if auth else ("T",)):
                         base = {"auth": auth, "policy": pol, "eager": eager, "conn_ok": ok}
                         yield from self.variants(rng, base, s[:cut], "quick", 1)
+
+    def gen_random(self, rng, tier):
         while True:
             base = self.env(rng)
             r = rng.random()
@@ -636,6 +643,19 @@ class Check(PropertyCheck):
                 if not ok: truth = None
             if truth: base["truth"] = truth
             yield from self.variants(rng, base, data, tier, 2 if tier == "quick" else 4)
+
+    def generate(self, rng, tier):
+        # round-robin so that every budget sees the same mix: 4 grammar/mutation/raw cases, 1 small-scope, 1 truncation
+        subs = [self.gen_random(rng, tier), self.gen_small(rng, tier), self.gen_canon(rng, tier)]
+        pattern = [0, 0, 1, 0, 0, 2]
+        alive = [True, True, True]
+        while True:
+            for k in pattern:
+                if not alive[k]: k = 0
+                try:
+                    yield next(subs[k])
+                except StopIteration:
+                    alive[k] = False
 
     def neighbours(self, case, rng):
         d = unhx(case["data_hex"])
